@@ -71,14 +71,22 @@ func (m Stor) Put(a oid.Address, d []byte) error {
 	if m.fail("Put") {
 		return ErrInjected
 	}
-	return m.FSTree.Put(a, d)
+	err := m.FSTree.Put(a, d)
+	if m.w.OnStep != nil {
+		m.w.OnStep("blob.Put.done")
+	}
+	return err
 }
 func (m Stor) PutBatch(o map[oid.Address][]byte) error {
 	m.pt("PutBatch")
 	if m.fail("PutBatch") {
 		return ErrInjected
 	}
-	return m.FSTree.PutBatch(o)
+	err := m.FSTree.PutBatch(o)
+	if m.w.OnStep != nil {
+		m.w.OnStep("blob.PutBatch.done")
+	}
+	return err
 }
 func (m Stor) Delete(a oid.Address) error { m.pt("Delete"); return m.FSTree.Delete(a) }
 func (m Stor) Get(a oid.Address) (*object.Object, error) {
